@@ -52,10 +52,10 @@ CLAIMS = {
             "Tie: the model (which has no crash outcome) is compared with the real provider on random bytes and mutations of valid documents (truncation, flips, length tampering, splices, NaN, non-string keys) under catch_unwind.",
             TB + "'Never crashes' is a statement about the Rust code (panics, aborts on allocation); the model is total, so that half rests on the correspondence run (panics caught per call) and on the alloc bound theorem.",
             "Lean 4 refinement theorem (both directions) lifted to every history + differential correspondence on malformed inputs", "§4 C08"),
-    "C09": ("Theorems at document level: for every value of the write-side family (unit, bool, i32, non-NaN f64, strings, options, vectors, string-keyed maps, any nesting) whose type has no Option directly over a nullable type, deserialising the document its serialisation builds returns the value "
+    "C09": ("C09_bytes_roundtrip_partial (byte level, through the models of the real writer and lazy reader): for every value of the write-side family with a nullFree type, serialising it through the write calls into a fresh output document, finalising, handing the bytes to a fresh invocation, fetching the root and deserialising through the provider read calls returns the value — composes C02 (bytes decode to the value's tree), C01 (lazy reads are reads of the decoded tree) and the document-level round trip. C09_typed_read_is_tree_read: for every read-side type (unit, bool, every integer range, f64, String, char, Option, Vec, fixed arrays, tuples, string-keyed maps, any nesting), Deserialize through the provider calls equals Deserialize read off the decoded tree, success and failure alike (Lemmas/DeDoc1-4, DeShape). Theorems at document level: for every value of the write-side family (unit, bool, i32, non-NaN f64, strings, options, vectors, string-keyed maps, any nesting) whose type has no Option directly over a nullable type, deserialising the document its serialisation builds returns the value "
             "(mutual induction over values; uses the exactness of i32 -> f64 -> i32 proved for all |z| < 2^53); the excluded shape is proved to fail (Some(()) -> None, known finding F10); mismatching documents are rejected for every type constructor, wrong lengths for fixed arrays and tuples. "
             "The real Serialize -> finalize -> re-initialise -> Deserialize pipeline is run on 35 concrete nested Rust types with seeded values (plus Vec->array/tuple, HashMap->BTreeMap read-side variants) and compared with the model, with an independent decoder and with serde_json; 60 documents x 63 types for mismatches.",
-            TB + "The theorem is about the document tree; that the written bytes decode to that tree is C02's obligation and that reading the bytes equals reading the tree is C01's — both tied by byte-level correspondence here. HashMap iteration order: answers are compared with maps sorted. serde_json / rmp_serde as the JSON oracle.",
+            TB + "HashMap iteration order: answers are compared with maps sorted. serde_json / rmp_serde as the JSON oracle.",
             "Lean 4 theorems by mutual induction over typed values + differential correspondence over a macro-instantiated type family", "§4 C09"),
     "C10": ("Theorems for all doubles: for i8/i16/i32/u8/u16/u32 Ok(r) iff the double is an integer with exact value r in range; for the 64-bit types the same for every double except 2^63 / 2^64, "
             "with the counterexamples proved and reported as known findings; guard and cast compared with the real Deserialize impls on every power of two +-2 ulp, bounds, halves, infinities and random doubles for the ten types.",
